@@ -6,8 +6,9 @@
 (*   {tid, ev: "tok", before, after, v, lv, top: {k, ty, v}}               *)
 (* (terminal name before / after the loop body, token text when it is a    *)
 (* plain word ("~" otherwise), the value-stack top), and one record        *)
-(*   {tid, ev: "out", kind, syntax, haspos, line, col, nlines, isdict}     *)
-(* for what the call did.  TLC replays each trace through ParseLoop:       *)
+(*   {tid, ev: "out", kind, stage, haspos, line, col, nlines, isdict}      *)
+(* for what the call did (and {tid, ev: "time", n0, t0us, n1, t1us} for a  *)
+(* measured pair of the timing clause, judged by TimeOK).  TLC replays each trace through ParseLoop:       *)
 (*   clause "top"     the recorded stack top is the previous token as the  *)
 (*                    spec's `prev` has it (After),                        *)
 (*   clause "retype"  after = Retype(prev, tok),                           *)
@@ -25,7 +26,7 @@ tvars == <<l, tid, tprev, drift, contract, cnt>>
 
 ContractClause(r) ==
     IF r.kind \notin {"ok", "larkerror"} THEN "kind"
-    ELSE IF r.kind = "larkerror" /\ r.syntax /\ ~(r.haspos /\ PosOK(r.line, r.col, r.nlines)) THEN "position"
+    ELSE IF IsSyntaxError(r) /\ ~(r.haspos /\ PosOK(r.line, r.col, r.nlines)) THEN "position"
     ELSE IF r.kind = "ok" /\ ~r.isdict THEN "result-type"
     ELSE IF OutcomeOK(r) THEN "ok" ELSE "contract"
 
@@ -50,6 +51,11 @@ Apply(r, p, d, c, n) ==
     THEN /\ tprev' = p
          /\ drift' = d
          /\ contract' = IF c # "none" THEN "twice" ELSE ContractClause(r)
+         /\ cnt' = n
+    ELSE IF r.ev = "time"
+    THEN /\ tprev' = p
+         /\ drift' = d
+         /\ contract' = IF TimeOK(r) THEN "ok" ELSE "time"
          /\ cnt' = n
     ELSE /\ UNCHANGED <<tprev, drift, contract, cnt>>       \* "eof" sentinel
 
